@@ -585,6 +585,8 @@ void f_unique_mapping (void) {
     {
       push_svalue (v->item + size);
       sv = call_efun_callback (&ftc, 1);
+      if (!sv)
+        sv = &const0; /* no such function in the callback object: group under 0 */
       i = (oi = (unsigned short)svalue_to_int (sv)) & mask;
       if ((uptr = table[i]))
         {
